@@ -10,6 +10,7 @@ package c15
 
 import (
 	"encoding/hex"
+	"encoding/json"
 	"fmt"
 	"io"
 	"os"
@@ -74,10 +75,11 @@ type crash struct {
 }
 
 var (
-	reIdx   = regexp.MustCompile(`index out of range`)
-	reSlice = regexp.MustCompile(`slice bounds out of range`)
-	reHexA  = regexp.MustCompile(`0x[0-9a-fA-F]+`)
-	reNum   = regexp.MustCompile(`[0-9]+`)
+	reIdx     = regexp.MustCompile(`index out of range`)
+	reSlice   = regexp.MustCompile(`slice bounds out of range`)
+	reHexA    = regexp.MustCompile(`0x[0-9a-fA-F]+`)
+	reNum     = regexp.MustCompile(`[0-9]+`)
+	reClosure = regexp.MustCompile(`(\.func[0-9]+|\.[0-9]+|\.gowrap[0-9]+)+$`)
 )
 
 func shortFn(fn string) string {
@@ -86,6 +88,8 @@ func shortFn(fn string) string {
 	}
 	fn = strings.ReplaceAll(fn, "(*", "")
 	fn = strings.ReplaceAll(fn, ")", "")
+	// closure numbering depends on inlining decisions: not part of the identity
+	fn = reClosure.ReplaceAllString(fn, "")
 	return fn
 }
 
@@ -121,6 +125,8 @@ func panicKind(v any) string {
 			return "nil-map"
 		case strings.Contains(s, "negative shift"):
 			return "negative-shift"
+		case strings.Contains(s, "cannot convert slice with length"):
+			return "slice-to-array"
 		}
 		return "runtime:" + sanitize(s)
 	}
@@ -155,6 +161,12 @@ func sanitize(s string) string {
 // hexutil ...) or outside go-quai, the first go-quai caller outside the utility packages is
 // named too: caller/kind@leaf.
 func analyse(v any, stack []byte) *crash {
+	c := analyse0(v, stack)
+	regroupHollowHeader(c)
+	return c
+}
+
+func analyse0(v any, stack []byte) *crash {
 	c := &crash{value: v, kind: panicKind(v), stack: string(stack)}
 	lines := strings.Split(string(stack), "\n")
 	var fr []frame
@@ -229,6 +241,9 @@ func analyse(v any, stack []byte) *crash {
 	site := ""
 	if strings.HasPrefix(fr[0].fn, quaiPrefix) && !isUtility(leaf) {
 		c.fp = leaf + "/" + c.kind
+		if c.fatal && strings.HasPrefix(leaf, "rawdb.") {
+			c.site, c.fp = c.fp, "rawdb/undecodable-stored-value"
+		}
 		return c
 	}
 	for _, f := range fr[1:] {
@@ -238,13 +253,43 @@ func analyse(v any, stack []byte) *crash {
 			break
 		}
 	}
+	// which big.Int method met the nil pointer is noise
+	if strings.HasPrefix(leaf, "big.Int.") {
+		leaf = "big.Int"
+	}
 	if site == "" {
 		c.fp = leaf + "/" + c.kind
 	} else {
 		c.fp = site + "/" + c.kind + "@" + leaf
 	}
+	// one design decision, many accessors: rawdb readers call logger.Fatal on a value they cannot
+	// decode (the accessor is named in the message and the dump)
+	if c.fatal && strings.HasPrefix(site, "rawdb.") {
+		c.site, c.fp = c.fp, "rawdb/undecodable-stored-value"
+	}
 	return c
 }
+
+// A types.Header that went through Header.ProtoDecode has every member set (the decoder checks
+// each one); an accessor of Header that meets a nil / empty member is therefore looking at the
+// zero-value (or nil) Header a work object body decodes to when the message carries no body
+// header. One root cause, named as such.
+func regroupHollowHeader(c *crash) {
+	if c.kind != "nil-deref" && c.kind != "index-out-of-range" {
+		return
+	}
+	if !strings.HasPrefix(c.fp, "types.Header.") && !strings.HasPrefix(c.fp, "types.CopyHeader") {
+		return
+	}
+	for _, f := range c.frames {
+		if strings.Contains(f.fn, "UnmarshalJSON") {
+			return
+		}
+	}
+	c.site, c.fp = c.fp, bodyHeaderAbsent
+}
+
+const bodyHeaderAbsent = "types.WorkObjectBody.ProtoDecode/body-header-absent"
 
 var reInlinedPrefix = regexp.MustCompile(`^verifharness/props/c15\.[A-Za-z0-9_]+\.`)
 
@@ -300,6 +345,7 @@ var (
 	surveyMu   sync.Mutex
 	survey     = map[string]string{}
 	surveyN    = map[string]int{}
+	surveyEx   = map[string]map[string]any{}
 )
 
 func surveyDump(t interface{ Logf(string, ...any) }) {
@@ -316,6 +362,10 @@ func surveyDump(t interface{ Logf(string, ...any) }) {
 	for _, k := range keys {
 		t.Logf("SURVEY %s (x%d)\n    %s", k, surveyN[k], survey[k])
 	}
+	if out := os.Getenv("C15_SURVEY_OUT"); out != "" {
+		b, _ := json.MarshalIndent(surveyEx, "", " ")
+		os.WriteFile(out, b, 0o644)
+	}
 }
 
 // report sends a violation; returns true when it is a listed known finding (caller continues).
@@ -323,8 +373,9 @@ func (p *probe) report(t stats.TB, fp, msg string, more map[string]any) bool {
 	t.Helper()
 	if surveyMode {
 		surveyMu.Lock()
-		if _, ok := survey[fp]; !ok {
+		if old, ok := surveyEx[fp]; !ok || len(p.input) < old["input_len"].(int) {
 			survey[fp] = fmt.Sprintf("%s | how=%s | input=%s | %v", msg, p.note, hx(p.input), more["stack"])
+			surveyEx[fp] = p.dump(more)
 		}
 		surveyN[fp]++
 		surveyMu.Unlock()
